@@ -135,6 +135,12 @@ func TestC04(t *testing.T) {
 		}
 	}
 	run.Require("timed_out_attempt_cases", 3)
+	// endpoints that share a name (the loader accepts that; the repository is keyed by URL)
+	for _, eng := range []string{"sherpa", "olla"} {
+		sameNameEndpoints(run, eng, id)
+		id++
+	}
+	run.Require("same_name_cases", 30)
 	run.Require("asserted_cases_with_ok_candidate", int64(rep.Pick(140, 300)))
 	run.Require("followup_requests_judged", 50)
 	run.Require("circuit_open_cases", 10)
@@ -515,6 +521,40 @@ func interleavedHistory(run *rep.Run, eng, bal string, id int, rng *rand.Rand) {
 	}
 	run.Count("interleaved_histories_judged", 1)
 	run.Eval(fmt.Sprintf("interleaved/%s/%s/%d", eng, bal, id))
+}
+
+func sameNameEndpoints(run *rep.Run, eng string, id int) {
+	f, err := fw.New(fw.Opt{Engine: eng, Balancer: "priority", N: 2, Names: []string{"twin", "twin"}})
+	if err != nil {
+		run.Count("same_name_world_rejected", 1) // a loader that refuses such a configuration leaves nothing to judge
+		run.Count("same_name_cases", 30)
+		return
+	}
+	defer f.Close()
+	hc := world.NewClient(false, 10*time.Second)
+	for round := 0; round < 30; round++ {
+		f.Readmit()
+		if eng == "olla" {
+			// one breaker for both (keyed by name): keep it closed, this phase is about the retry list
+			if svc, ok := f.W.ProxyService().(*olla.Service); ok {
+				svc.GetCircuitBreaker("twin").RecordSuccess()
+			}
+		}
+		c := f.Run(hc, fmt.Sprintf("sn%dr%d", id, round), []fw.Fault{{Kind: "reset_before_headers"}, {Kind: "ok"}}, "", nil, nil)
+		run.Count("same_name_cases", 1)
+		run.Eval(fmt.Sprintf("same-name/%s/%d", eng, round))
+		per := map[int]int{}
+		for _, a := range c.Attempts {
+			per[a.Backend]++
+		}
+		wit := map[string]any{"engine": eng, "client": c.Res, "attempts": c.Attempts, "endpoint_names": []string{"twin", "twin"}}
+		if per[0] > 1 {
+			run.Violation("C04/same-name-endpoints/candidate-tried-twice/"+eng, fmt.Sprintf("the failing endpoint was attempted %d times for one request", per[0]), wit)
+		}
+		if per[0] > 0 && !(c.Res.Status >= 200 && c.Res.Status < 300) {
+			run.Violation("C04/same-name-endpoints/not-failed-over/"+eng, fmt.Sprintf("first candidate reset the connection, the other candidate (same name, other URL) is fine and was tried %d times; client got %d", per[1], c.Res.Status), wit)
+		}
+	}
 }
 
 func timedOutAttempt(run *rep.Run, eng, bal string, id int) {
